@@ -151,7 +151,7 @@ fn lib_take(b: &[u8]) -> Result<(i64, u32), ()> {
 fn lib_take_opt(b: &[u8]) -> Result<Option<(i64, u32)>, ()> {
     Mode::Der.decode(b, |cons| {
         let r = Time::take_opt_from(cons)?;
-        if r.is_none() { cons.skip_all()? }
+        if r.is_none() { cons.skip_one()?; }
         Ok(r)
     }).map(|o| o.map(inst)).map_err(|_| ())
 }
@@ -164,15 +164,15 @@ fn lib_encode_varied(t: Time, buf: &mut Vec<u8>) {
 /// Failure reporter for hot loops: at most 16 reports per oracle per work
 /// unit, collected and emitted in sorted order at the end so that the output
 /// does not depend on thread timing.
-static COLLECTED: Mutex<Vec<(&'static str, String, String)>> = Mutex::new(Vec::new());
+static COLLECTED: Mutex<Vec<(&'static str, u32, String, String)>> = Mutex::new(Vec::new());
 
-struct Lf { n: BTreeMap<&'static str, u32>, got: Vec<(&'static str, String, String)> }
+struct Lf { n: BTreeMap<&'static str, u32>, got: Vec<(&'static str, u32, String, String)>, rank: u32 }
 impl Lf {
-    fn new(_ctx: &Ctx) -> Self { Lf { n: BTreeMap::new(), got: Vec::new() } }
+    fn new(_ctx: &Ctx) -> Self { Lf { n: BTreeMap::new(), got: Vec::new(), rank: 0 } }
     fn fail(&mut self, oracle: &'static str, w: impl FnOnce() -> String, d: impl FnOnce() -> String) {
         let c = self.n.entry(oracle).or_insert(0);
         *c += 1;
-        if *c <= 16 { self.got.push((oracle, w(), d())) }
+        if *c <= 16 { self.got.push((oracle, self.rank, w(), d())) }
     }
 }
 impl Drop for Lf {
@@ -183,9 +183,10 @@ impl Drop for Lf {
 
 fn emit_failures(ctx: &Ctx) {
     let mut v = std::mem::take(&mut *COLLECTED.lock().unwrap());
-    v.sort_by(|a, b| a.0.cmp(b.0).then(a.1.len().cmp(&b.1.len())).then_with(|| a.1.cmp(&b.1)));
+    // simplest first: by oracle, then rank (number of positions changed), then witness
+    v.sort_by(|a, b| a.0.cmp(b.0).then(a.1.cmp(&b.1)).then(a.2.len().cmp(&b.2.len())).then_with(|| a.2.cmp(&b.2)));
     v.dedup();
-    for (o, w, d) in v { ctx.fail(o, w, d) }
+    for (o, _, w, d) in v { ctx.fail(o, w, d) }
 }
 
 fn show(tlvb: &[u8]) -> String {
@@ -347,7 +348,11 @@ fn main() {
 
     // ---------------------------------------------------------------- (1)
     let sods_all: Vec<u32> = if thorough {
-        let mut v = vec![0u32, 1, 59, 60, 61, 3599, 3600, 3601, 35999, 36000, 43199, 43200, 43201, 46799, 72000, 82799, 82800, 86339, 86340, 86398, 86399];
+        // every hour boundary -1/0/+1, every minute of hour 12, every second of 12:34
+        let mut v = vec![0u32, 1, 59, 60, 61, 86398, 86399];
+        for h in 0..24u32 { v.extend([h * 3600, h * 3600 + 1, h * 3600 + 3599]) }
+        for m in 0..60u32 { v.push(12 * 3600 + m * 60) }
+        for s in 0..60u32 { v.push(12 * 3600 + 34 * 60 + s) }
         v.sort(); v.dedup(); v
     } else { vec![0, 1, 43200, 86398, 86399] };
     let sp = ctx.space("time.calendar_sweep",
@@ -441,11 +446,13 @@ fn main() {
         for &(tag, s) in &seeds { sp.evals(2); if !check_decode(&mut lf, &mut oc, tag, s.as_bytes()) { ctx.machinery_error(format!("seed {s} is not valid for the model")) } }
         sp.merge_outcomes(&oc);
     }
-    for k in 1..=max_k {
+    for k in 1..=(if thorough { 4 } else { max_k }) {
         let mut work: Vec<(u8, &'static str, Vec<usize>)> = Vec::new();
-        for &(tag, s) in &seeds { for c in combos(s.len(), k) { work.push((tag, s, c)) } }
+        // 4 positions at once: only the first seed of each form (thorough)
+        for (i, &(tag, s)) in seeds.iter().enumerate() { if k <= max_k || i % 6 == 0 { for c in combos(s.len(), k) { work.push((tag, s, c)) } } }
         work.par_iter().for_each(|(tag, s, pos)| {
             let mut lf = Lf::new(&ctx); let mut oc = Oc::new();
+            lf.rank = pos.len() as u32;
             let orig = s.as_bytes();
             let choices: Vec<Vec<u8>> = pos.iter().map(|&p| alphabet.iter().copied().filter(|&a| a != orig[p]).collect()).collect();
             let total: usize = choices.iter().map(|c| c.len()).product();
@@ -462,7 +469,7 @@ fn main() {
     }
     sp.sample_str(|| show(&tlv(UTC, b"20+1011234+5Z")));
     sp.sample_str(|| show(&tlv(GEN, b"+20001011234+5Z")));
-    sp.done(true, &format!("all substitutions of up to {max_k} positions in 12 seeds"));
+    sp.done(true, &if thorough { format!("all substitutions of up to {max_k} positions in 12 seeds and of 4 positions in the first seed of each form") } else { format!("all substitutions of up to {max_k} positions in 12 seeds") });
 
     // ---------------------------------------------------------------- (4)
     let sp = ctx.space("time.fields",
@@ -542,7 +549,10 @@ fn main() {
                 let b = tlv(*tag, c);
                 match guard(|| lib_take_opt(&b)) {
                     Ok(Ok(None)) => bump(&mut oc, "take_opt-none-for-foreign-tag"),
-                    Ok(Err(())) => bump(&mut oc, "take_opt-error-for-foreign-tag"),
+                    Ok(Err(())) => {
+                        bump(&mut oc, "take_opt-error-for-foreign-tag");
+                        sp.sample_str(|| format!("{} -> take_opt_from: {:?}", show(&b), Mode::Der.decode(&b[..], |cons| { let r = Time::take_opt_from(cons)?; if r.is_none() { cons.skip_one()?; } Ok(r.map(inst)) }).map_err(|e| e.to_string())));
+                    }
                     Ok(Ok(Some(_))) => {} // already reported by check_decode
                     Err(_) => {}
                 }
